@@ -7,12 +7,12 @@ CONSTANTS
   TotalSizes = {1, 4}
   MaxWrites = 3
   MaxTs = 2
-  MaxDeletes = 1
+  MaxDeletes = 0
   MaxReopens = 0
   MaxPosOps = 1
   Active = {"w"}
   Bin = FALSE
   Acts = {"write", "read", "readblock", "delete", "seek", "tell"}
-  Defects = {"overwrite", "refresh_skip"}
+  Defects = {"overwrite", "refresh_skip", "frac_ts"}
 VIEW view
 ACTION_CONSTRAINT Emit
